@@ -1556,8 +1556,17 @@ func scenC07(g *Gen, dir string) ([]*Op, func(e *Env, i int, op *Op, obs []strin
 		g.count("mix:second-signature")
 	}
 	variant := r.Intn(12)
-	if variant >= 10 {
+	if variant == 10 {
 		variant = 6 // (the envelope variants have two sub-cases)
+	}
+	if variant == 11 {
+		variant = 0 // (so have the fingerprint rewrites: random, absent, somebody else's)
+	}
+	if variant == 0 && s.PGP < 0 && len(ops) == 3 {
+		// a fingerprint rewrite needs a signature that carries one: the first signer is a PGP entity
+		s.PGP, s.DSSE, s.NoSalt = r.Intn(len(u.PGP)), nil, true
+		ops[2] = &Op{Kind: "sign", S: s}
+		signers = append([]int{}, s.keyList()...)
 	}
 	mangled := false
 	hintKey := -1
@@ -1568,7 +1577,7 @@ func scenC07(g *Gen, dir string) ([]*Op, func(e *Env, i int, op *Op, obs []strin
 	switch variant {
 	case 0: // fingerprint in the descriptor rewritten
 		fp := r.Bytes(20)
-		if r.Chance(1, 3) {
+		if r.Chance(1, 2) {
 			fp = make([]byte, 20)
 		} else if r.Chance(1, 2) && len(u.PGP) > 1 {
 			fp = u.PGP[r.Intn(len(u.PGP))].PrimaryKey.Fingerprint
